@@ -44,10 +44,25 @@ type Check struct {
 	// single shard with many threads.
 	Shards, MaxProcs int
 	Run              func(c *Ctx)
+	// Post, if set, runs in the parent after all shards finished, over files the shards left in the work
+	// directory (used when a verdict needs to compare cases that were executed by different shards).
+	Post func(workDir string, shards int) PostResult
 	// Replay re-executes one recorded case without any explorer and reports
 	// whether it violates the property.
 	Replay func(caseJSON json.RawMessage) (bool, string)
 }
+
+// PostResult is what a Check.Post hook contributes to the merged result.
+type PostResult struct {
+	Violations []Violation
+	States     int64
+	Nontrivial int64
+	Outcomes   map[string]int64
+	Incomplete string // non-empty: why the post step could not judge everything
+}
+
+// WorkDir is the per-run scratch directory as seen from a shard (the directory of its result file).
+func (c *Ctx) WorkDir() string { return c.workDir }
 
 // Violation is one failing case.
 type Violation struct {
@@ -79,6 +94,7 @@ type Ctx struct {
 	sigCount    map[string]int
 	Caps        []string
 	Notes       map[string]interface{}
+	workDir     string
 	deadline    time.Time
 	expired     bool
 	setCapNoted bool
@@ -260,7 +276,7 @@ func RunShard(ck *Check, tier string, shard, n int, out string) {
 	c := &Ctx{ID: ck.ID, Tier: tier, Seed: seed, Shard: shard, NShards: n,
 		nontrivial: map[uint64]struct{}{}, seen: map[[2]uint64]struct{}{},
 		Outcomes: map[string]int64{}, sigCount: map[string]int{}, Notes: map[string]interface{}{},
-		deadline: time.Now().Add(time.Duration(budget) * time.Second)}
+		deadline: time.Now().Add(time.Duration(budget) * time.Second), workDir: filepath.Dir(out)}
 	if tp := os.Getenv("VERIF_TRACE"); tp != "" {
 		f, err := os.Create(tp)
 		if err == nil {
@@ -515,6 +531,20 @@ func Main(ck *Check, tier string) int {
 	}
 	if total.Samples == nil {
 		total.Samples = []interface{}{}
+	}
+
+	if ck.Post != nil {
+		pr := ck.Post(work, n)
+		total.Violations = append(total.Violations, pr.Violations...)
+		total.States += pr.States
+		total.Nontrivial += pr.Nontrivial
+		for k, v := range pr.Outcomes {
+			total.Outcomes[k] += v
+		}
+		if pr.Incomplete != "" {
+			total.Caps = appendUniq(total.Caps, pr.Incomplete)
+			exhaustive = false
+		}
 	}
 
 	// ---- decide ---------------------------------------------------------------
